@@ -8,7 +8,10 @@ import zlib
 from lib import common, tlc, goharness, findings
 from lib.common import InfraError, Violation
 
-OVERLAY = ["/verif/harness/overlay/asserts/zz_verif_assertcheck_test.go"]
+OVERLAY = ["/verif/harness/overlay/asserts/zz_verif_assertcheck_test.go",
+           "/verif/harness/overlay/asserts/zz_verif_assertstack_test.go"]
+STACK_NOW = 15      # abstract clock of the stacked-database histories (keys: since 10, "expired" until 12)
+STACK_VIAS = ("check", "fresh_check", "precheck", "commit", "add")
 BYTE_CLASSES = ("hdr-byte", "body-byte", "sig-byte")
 SINCE = 10     # must equal Since in AssertCheck_mc.cfg
 
@@ -67,6 +70,96 @@ def plan(ctx, table):
     return rows, n_full
 
 
+def stack_evaluate(table, got):
+    """Compare the real judgements through every handle of every stacked-database history with AssertStack.tla."""
+    violations, mismatches = [], []
+    judged = accepts = shadow = 0
+    depths = {}
+    for i, (row, g) in enumerate(zip(table, got)):
+        if g["i"] != i:
+            raise InfraError("stack driver output out of order at %d" % i)
+        ops = ",".join(row["ops"])
+        if g["setup"] != "ok":
+            mismatches.append({"ops": ops, "what": g["setup"]})
+            continue
+        depth = len(row["layers"])
+        depths[depth] = depths.get(depth, 0) + 1
+        shadow += 1 if row["shadow"] else 0
+        for d, (exp, h) in enumerate(zip(row["verdicts"], g["handles"]), 1):
+            for via in STACK_VIAS:
+                judged += 1
+                real = h[via]
+                if real == "accept" and exp == "accept":
+                    accepts += 1
+                if real == exp:
+                    continue
+                rec = {"ops": row["ops"], "layers": row["layers"], "handle": d, "depth": depth, "via": via, "spec": exp,
+                       "real": h, "highest_visible_revision": row["highest"][d - 1]}
+                if real == "accept":
+                    violations.append(Violation(
+                        key="stacked db accepted: ops=%s handle=%d/%d via=%s" % (ops, d, depth, via),
+                        desc="history [%s]: through database handle %d of %d (%s) an assertion signed with the key was ACCEPTED "
+                             "although the highest account-key revision visible to that database is %s (spec: %s; Find returned "
+                             "revision %s)" % (ops, d, depth, via, row["highest"][d - 1], exp, h["key_rev"]),
+                        replay=rec))
+                else:
+                    mismatches.append(dict(rec, what="verdict differs without acceptance"))
+            if h["key_rev"] != row["highest"][d - 1]["rev"]:
+                mismatches.append({"ops": ops, "handle": d, "what": "Find(account-key) returned revision %s, highest visible is %s"
+                                   % (h["key_rev"], row["highest"][d - 1]["rev"])})
+    return {"violations": violations, "mismatches": mismatches, "judged": judged, "accepts": accepts, "shadow": shadow,
+            "depths": depths}
+
+
+def run_stack(ctx, tb):
+    """Part 2: AssertStack.tla (stack of backstores) -- TLC explores the state machine and exports every history;
+    each history is replayed on real stacked databases."""
+    d = ctx.subdir("stack")
+    tpath = os.path.join(d, "stack.json")
+    cfg = ctx.pick("AssertStack_mc.cfg", "AssertStack_mc_thorough.cfg")
+    mc = tlc.run(ctx, "AssertStackTable", cfg, workers=2, env={"VERIF_OUT": tpath}, timeout=ctx.pick(600, 1800),
+                 name="tlc_AssertStack")
+    if not mc.ok:
+        raise InfraError("spec-level counterexample in AssertStack: %s\n%s" % (mc.summary(), common.tail(mc.out, 30)))
+    with open(tpath) as f:
+        table = json.load(f)
+    inp, outp = os.path.join(d, "hist.ndjson"), os.path.join(d, "out.ndjson")
+    common.write_ndjson(inp, [{"i": i, "ops": r["ops"], "now": STACK_NOW} for i, r in enumerate(table)])
+    rc, o = goharness.run_test_bin(ctx, tb, "^TestVerifAssertStack$", cwd=os.path.join(common.REPO, "asserts"),
+                                   env={"VERIF_IN": inp, "VERIF_OUT": outp}, timeout=ctx.pick(900, 3000))
+    goharness.check_driver(rc, o, "assertstack driver")
+    m = re.search(r'VERIF-STATS rows=(\d+) judgements=(\d+)', o)
+    if not m or int(m.group(1)) != len(table):
+        raise InfraError("assertstack driver did not answer all histories:\n%s" % common.tail(o, 20))
+    got = common.read_ndjson(outp)
+    ev = stack_evaluate(table, got)
+    # binding self-check: one real rejection turned into an acceptance must be reported
+    import copy
+    neg = False
+    for i, (row, g) in enumerate(zip(table, got)):
+        if row["shadow"] and g["setup"] == "ok":
+            d0 = next(k for k, v in enumerate(row["verdicts"]) if v != "accept" and k >= 1)
+            g2 = copy.deepcopy(got)
+            g2[i]["handles"][d0]["fresh_check"] = "accept"
+            neg = len(stack_evaluate(table, g2)["violations"]) == len(ev["violations"]) + 1
+            break
+    ctx.log("AssertStack %s: %d states; %d histories (%d with a bad newer revision above a good older one) replayed on real "
+            "stacked databases, %d judgements; %d violations, %d spec mismatches, %.0fs TLC" % (
+                cfg, mc.distinct, len(table), ev["shadow"], ev["judged"], len(ev["violations"]), len(ev["mismatches"]), mc.wall))
+    sample = None
+    for row, g in zip(table, got):
+        if row["shadow"] and len(row["layers"]) >= 3 and g["setup"] == "ok":
+            sample = {"stacked_history": row["ops"], "layers": row["layers"], "spec_verdict_per_handle": row["verdicts"],
+                      "real_per_handle": g["handles"]}
+            break
+    cov = {"stack_states": mc.distinct, "stack_transitions": mc.generated, "stack_tlc_config": cfg,
+           "stack_histories_replayed": len(table), "stack_histories_with_shadowed_good_revision": ev["shadow"],
+           "stack_histories_by_depth": ev["depths"], "stack_real_judgements": ev["judged"],
+           "stack_real_accepts_agreeing": ev["accepts"], "stack_negative_control_rejected": neg,
+           "stack_spec_mismatches": len(ev["mismatches"])}
+    return ev, cov, neg, sample
+
+
 def run(ctx):
     # 1. design: TLC enumerates the whole decision table, checks the invariants on every row and exports it
     d = ctx.subdir("table")
@@ -102,6 +195,11 @@ def run(ctx):
         len(rows), m.group(2), len(ev["violations"]), len(ev["mismatches"])))
 
     neg = negative_control(table, rows, got)
+
+    # 3. the database as a stack of backstores (AssertStack.tla)
+    sev, scov, sneg, ssample = run_stack(ctx, tb)
+    ev["violations"].extend(sev["violations"])
+    stack_mismatches = sev["mismatches"]
     # guards are enforced unless there is a violation that is not a listed known finding (which exits 1 anyway)
     if not findings.classify(ctx.prop, ev["violations"])[1]:
         if ev["mismatches"]:
@@ -112,6 +210,13 @@ def run(ctx):
             raise InfraError("vacuity guard: real code accepted %d rows, table has %d" % (ev["real_accepts"], n_acc))
         if not neg:
             raise InfraError("binding self-check failed: a corrupted real verdict was not rejected")
+        if stack_mismatches:
+            raise InfraError("real stacked databases and AssertStack.tla disagree where the statement does not decide (%d; triage): %s"
+                             % (len(stack_mismatches), json.dumps(stack_mismatches[0], default=str)[:1200]))
+        if sev["shadow"] == 0 or sev["accepts"] == 0:
+            raise InfraError("vacuity guard: stacked histories never reached the shadowing layering / never accepted")
+        if not sneg:
+            raise InfraError("binding self-check failed (stack): a corrupted real verdict was not rejected")
 
     samples = []
     want = [("none", "accept"), ("none", "reject:expired"), ("sig-byte", "reject:signature"),
@@ -137,8 +242,12 @@ def run(ctx):
         "real_reject_reasons": ev["real_reasons"],
         "negative_control_corrupted_verdict_rejected": neg,
         "spec_mismatches": len(ev["mismatches"]),
-        "samples": samples,
+        "samples": samples + ([ssample] if ssample else []),
     }
+    cov.update(scov)
+    cov["states"] += scov["stack_states"]
+    cov["transitions"] += scov["stack_transitions"]
+    cov["traces_validated_against_impl"] += scov["stack_histories_replayed"]
     return common.Result(
         level="model_checking", coverage=cov, violations=ev["violations"],
         assumptions=[
@@ -151,6 +260,8 @@ def run(ctx):
             "and 12 spread positions for the others; thorough mutates every position of every accepted base row "
             "(all 8 bits of every content and decoded-signature byte)",
             "bytes outside the signed content and the decoded signature (separators, base64 layout) are only covered by sig-reencode",
+            "stacked databases: memory backstores, one key, account-key revisions added through the top handle only, depth <= 3 "
+            "(thorough 4), histories of <= 5 (thorough 6) actions; judged after the last action through every handle",
         ])
 
 
